@@ -1,0 +1,64 @@
+//go:build verif
+
+// Contracts for package circularQueue, checked by /verif/govc (see /verif/DESIGN.md).
+// This file contains only comments; it is compiled only with -tags verif and
+// has no effect on the package.
+
+package circularQueue
+
+// Representation: the queue holds the messages added with sequence numbers
+// NextIndex-n .. NextIndex-1 (n = number held), keyed by sequence number.  QInv
+// is the representation invariant; hist is the ghost history of all additions.
+//@ define QLo(q) = q.NextIndex - len(q.Items)
+//@ define QInv(q) = q.Items != nil && q.MaxItems >= 1 && 0 <= len(q.Items) && len(q.Items) <= q.MaxItems && len(q.Items) <= q.NextIndex && forallint(k, has(q.Items, k) == (QLo(q) <= k && k < q.NextIndex))
+
+//@ type CircularQueue
+//@ guarded_by RWMutex: Items, NextIndex
+
+//@ func NewCircularQueue
+//@ requires[C18] max >= 1
+//@ ensures[C18] result != nil && fresh(result) && QInv(result) && result.NextIndex == 0 && len(result.Items) == 0 && result.MaxItems == max
+
+// Keys of the map in ascending order: Go's map iteration visits every key once and
+// sort.Ints sorts (assumed).  For a domain that is an interval the enumeration is the
+// interval itself (the counting argument behind this corollary is not machine checked;
+// the oracle checks it on the real function for all small domains: bounded).
+//@ func (*CircularQueue).getKeysInAscendingOrder
+//@ assume-contract
+//@ ensures len(result) == len(cb.Items) && fresh(result)
+//@ ensures forall(j, 0, len(result), has(cb.Items, result[j]))
+//@ ensures forall(j, 0, len(result) - 1, result[j] < result[j+1])
+//@ ghostparam lo Int
+//@ ensures forallint(k, has(cb.Items, k) == (lo <= k && k < lo + len(cb.Items))) ==> forall(j, 0, len(result), result[j] == lo + j)
+
+//@ func (*CircularQueue).Add
+//@ ghostparam hist (Array Int S_github_com_goblimey_go_ntrip_rtcm_handler_Message)
+//@ requires[C07] cb != nil
+//@ requires[C18] QInv(cb) && cb.NextIndex < 4611686018427387904
+//@ requires[C18] forallint(k, has(cb.Items, k) ==> cb.Items[k] == hist[k])
+//@ let ni = cb.NextIndex
+//@ let n0 = len(cb.Items)
+//@ let lo = cb.NextIndex - len(cb.Items)
+//@ let items = cb.Items
+//@ modifies cb.NextIndex, mapof(cb.Items)
+//@ ensures[C18] QInv(cb) && cb.NextIndex == ni + 1 && cb.Items == items
+//@ ensures[C18] len(cb.Items) == ite(n0 + 1 <= cb.MaxItems, n0 + 1, cb.MaxItems)
+//@ ensures[C18] has(cb.Items, ni) && cb.Items[ni] == message
+//@ ensures[C18] forallint(k, has(cb.Items, k) && k != ni ==> cb.Items[k] == hist[k])
+//@ loop 1
+//@ invariant[C18] cb.Items == items && cb.NextIndex == ni && items != nil && n0 == cb.MaxItems && len(keys) == n0
+//@ invariant[C18] forall(j, 0, len(keys), keys[j] == ni - n0 + j)
+//@ invariant[C18] len(cb.Items) == ite(rangeindex + 1 >= 1, n0 - 1, n0)
+//@ invariant[C18] forallint(k, has(cb.Items, k) == (ni - n0 + ite(rangeindex + 1 >= 1, 1, 0) <= k && k < ni))
+//@ invariant[C18] forallint(k, has(cb.Items, k) ==> cb.Items[k] == hist[k])
+
+//@ func (*CircularQueue).GetMessages
+//@ requires[C07] cb != nil
+//@ requires[C18] QInv(cb)
+//@ let lo = cb.NextIndex - len(cb.Items)
+//@ ensures[C18] len(result) == len(cb.Items) && fresh(result)
+//@ ensures[C18] forall(j, 0, len(result), result[j] == cb.Items[lo + j])
+//@ loop 1
+//@ invariant[C18] len(result) == rangeindex + 1 && fresh(result) && len(keys) == len(cb.Items)
+//@ invariant[C18] forall(j, 0, len(keys), keys[j] == lo + j)
+//@ invariant[C18] forall(j, 0, len(result), result[j] == cb.Items[lo + j])
